@@ -1,4 +1,5 @@
 import NfcVerif.Lemmas.Term
+import NfcVerif.Lemmas.TermMulti
 /-!
 # C09 - when the LLCP link ends no application thread is left waiting
 
@@ -13,14 +14,68 @@ thread eventually gets the lock, the link thread preempts an application thread
 only where that thread holds no lock.
 -/
 namespace NfcVerif.C09
-open NfcVerif NfcVerif.Term
+open NfcVerif NfcVerif.Term NfcVerif.TermMulti
 
-/-- `terminate()` notifies the condition variable of every thread that waits in a socket call:
-    for every waiting point `p`, every world in which the socket is in a service access point
-    (resp. the service discovery SAP exists, for `resolve`) - any state, queues, counters. -/
-theorem terminate_notifies_every_waiter (w : World) (p : Pt) (hw : p.isWait = true)
-    (hreg : waiter w p = true) (hk : kindOK w p = true) : (terminate w).2.contains p.cv = true :=
-  terminate_notifies w p hw hreg hk
+/-- `terminate()` notifies the condition variable of every thread that waits in a socket call, and it
+    wakes EVERY such thread (notify_all, not notify): `m` is any state of any number of threads on one
+    socket / controller (`NfcVerif.TermMulti`, condition variables with FIFO waiter lists and
+    `notify()` / `notify_all()` as in threading.Condition) in which the link thread is about to run
+    `terminate()`; every thread `i` parked at a waiting point `p` - its socket in a service access point
+    (resp. the service discovery SAP alive, for `resolve`), any state, queues, counters - is marked
+    notified afterwards. -/
+theorem terminate_notifies_every_waiter (m : MState) (rest : List Act) (hs : m.script = .term :: rest)
+    (i : Nat) (t : Thread) (p : Pt) (hi : m.ths[i]? = some t) (hst : t.stat = .parked p false)
+    (hw : p.isWait = true) (hreg : waiter m.w p = true) (hk : kindOK m.w p = true) :
+    (terminate m.w).2.contains p.cv = true ∧
+    (linkStep m).ths[i]? = some { t with stat := .parked p true } :=
+  ⟨terminate_notifies m.w p hw hreg hk, terminate_wakes_all m rest hs i t p hi hst hw hreg hk⟩
+
+/-- three threads wait on the same established connection: window, send queue, acknowledgements -/
+def exThreeWaiters : MState :=
+  { w := { s := ⟨.dlc, .established, true, [], [.i], 1, 1, 128, 1, 1, 0, 0, 0, 1⟩, registered := true,
+           sapAlive := true, sapOthers := false, terminated := false, sdAlive := true, resolved := false,
+           viaSap := false },
+    ths := [⟨.send false 1, .parked .wWindow false, false⟩, ⟨.send false 1, .parked .wWindow false, false⟩,
+            ⟨.poll .acks false, .parked .wPollAcks false, false⟩, ⟨.resolve, .parked .wResolve false, false⟩],
+    order := [0, 1, 2, 3], script := [.term] }
+
+example : (linkStep exThreeWaiters).ths.map stillWaiting = [false, false, false, false] := by decide
+example : exThreeWaiters.ths.map stillWaiting = [true, true, true, true] := by decide
+
+/-- the model distinguishes `notify()` from `notify_all()` (seeded change C09-r2m1: ServiceDiscovery.shutdown
+    with `resp.notify()`): of two threads in resolve() the second one stays parked, un-notified - for ever,
+    whatever the schedule of the threads afterwards -/
+theorem notify_one_counterexample (ds : List Nat) :
+    (linkStepG applyActNotifyOne twoResolvers).ths.map stillWaiting = [false, true] ∧
+    ((runThreads (linkStepG applyActNotifyOne twoResolvers) ds).ths[1]?).map stillWaiting = some true :=
+  ⟨notify_one_leaves_a_waiter.1, notify_one_waits_forever ds⟩
+
+/-- **all threads return, any number of threads, any schedule**: `m` is the moment the link thread is about
+    to execute `terminate()`; every thread is in a state `preB` allows - its call not started, at a lock
+    acquisition of its call (`validAcq`, `acqInv`), parked at a wait of its call (notified or not; its socket
+    in a service access point), or ended.  After the termination, in whatever order `ds` the threads continue:
+    * no thread is ever parked without having been notified (no lost wake-up, no wait entered on the dead link),
+    * a thread keeps its call, and every result it obtains is a value or nfc.llcp.Error,
+    * a thread that has been scheduled four times has returned. -/
+theorem all_threads_return (m : MState) (rest : List Act) (hs : m.script = .term :: rest) (hwf : WF m.w)
+    (hpre : ∀ t ∈ m.ths, preB m.w t = true) (ds : List Nat) :
+    (∀ t' ∈ (runThreads (linkStep m) ds).ths, waitsOn t' = none) ∧
+    ∀ i t, m.ths[i]? = some t → ∃ t', (runThreads (linkStep m) ds).ths[i]? = some t' ∧ t'.call = t.call ∧
+      (∀ r, t'.stat = .done r → good r = true ∨ t.stat = .done r) ∧
+      (4 ≤ ds.count i → ∃ r, t'.stat = .done r) :=
+  threads_return m rest hs hwf hpre ds
+
+example : WF exThreeWaiters.w ∧ ∀ t ∈ exThreeWaiters.ths, preB exThreeWaiters.w t = true := by
+  refine ⟨by simp [WF, exThreeWaiters], ?_⟩
+  decide
+
+/-- the scheduler runs of the driver (`runM`) are runs of the threads once the link thread has ended -/
+theorem schedule_after_terminate (m : MState) (hs : m.script = [.term]) (ds : List Nat) :
+    runM m (m.ths.length :: ds) = runThreads (linkStep m) ds := by
+  have h1 : decide1 m m.ths.length = linkStep m := by simp [decide1]
+  have h2 : (linkStep m).script = [] := (linkStep_term m [] hs).2.2
+  simp only [runM, h1]
+  exact runM_eq_runThreads _ h2 ds
 
 example : waiter { s := ⟨.dlc, .established, true, [], [.i], 1, 1, 128, 1, 1, 0, 0, 0, 1⟩, registered := true,
                    sapAlive := true, sapOthers := false, terminated := false, sdAlive := true, resolved := false,
@@ -122,7 +177,40 @@ theorem connect_returns_counterexample : ¬ ConnectAlwaysReturns := by
 
 /-- **service threads exit**: from every program point of the SNEP / handover listen and serve loops,
     on a socket of a terminated link, the thread function ends within 3 socket calls. -/
-theorem service_threads_exit (w : World) (p : SPt) (hw : After w) : serviceRun w 3 p = .exited :=
-  service_exit w p hw
+theorem service_threads_exit (srv : Srv) (w : World) (p : SPt) (hw : After w) : serviceRun srv w 3 p = .exited :=
+  service_exit srv w p hw
+
+/-- **service threads exit, from every point, at every moment**: a service thread (thread `i` of any number
+    of threads) stands at program point `sp` of its listen / serve loop; the socket call of that point is in
+    progress - not yet started, at one of its lock acquisitions, or parked at one of its waits (`preB`) -
+    when the link thread executes `terminate()`.  Whatever the schedule `ds` afterwards, once the thread has
+    been given four turns its call has returned a value or nfc.llcp.Error, and from the program point that
+    follows this result the thread function of either server ends within three further socket calls. -/
+theorem service_threads_exit_any_point (srv : Srv) (sp : SPt) (m : MState) (rest : List Act)
+    (hs : m.script = .term :: rest) (hwf : WF m.w) (hpre : ∀ t ∈ m.ths, preB m.w t = true)
+    (i : Nat) (t : Thread) (hi : m.ths[i]? = some t) (_hc : t.call = sp.call) (hnd : ∀ r, t.stat ≠ .done r)
+    (ds : List Nat) (h4 : 4 ≤ ds.count i) :
+    ∃ t' r, (runThreads (linkStep m) ds).ths[i]? = some t' ∧ t'.stat = .done r ∧ good r = true ∧
+      serviceRun srv (runThreads (linkStep m) ds).w 3 (serviceStep srv sp (classify r)) = .exited := by
+  obtain ⟨_, h⟩ := threads_return m rest hs hwf hpre ds
+  obtain ⟨t', ht', _, hgood, hdone⟩ := h i t hi
+  obtain ⟨r, hr⟩ := hdone h4
+  refine ⟨t', r, ht', hr, ?_, service_exit srv _ _ (threads_world_after m rest hs hwf hpre ds)⟩
+  rcases hgood r hr with h | h
+  · exact h
+  · exact absurd h (hnd r)
+
+/-- the listen thread of a server parked in accept(), a second thread about to take the llc lock after its
+    accept() returned a connection (the window of C09-r2m3) -/
+def exListener : MState :=
+  { w := { s := ⟨.dlc, .listen, true, [], [.cc], 1, 2, 128, 1, 0, 0, 0, 0, 1⟩, registered := true,
+           sapAlive := true, sapOthers := true, terminated := false, sdAlive := true, resolved := false,
+           viaSap := false },
+    ths := [⟨.accept, .parked .wTcoRecv false, false⟩, ⟨.accept, .ready .llcAcq, false⟩],
+    order := [0], script := [.term] }
+
+example : WF exListener.w ∧ (∀ t ∈ exListener.ths, preB exListener.w t = true) ∧
+    (∀ t ∈ exListener.ths, t.call = SPt.listenAccept.call) := by
+  refine ⟨by simp [WF, exListener], by decide, by decide⟩
 
 end NfcVerif.C09
